@@ -42,7 +42,7 @@ ALL_FORMS = ["ndarray", "ndarray_int", "ndarray_bool", "ndarray_f32",
              "coo_dups_free_shuffled"]
 
 AID = st.sampled_from(["a", "b", "c", "d", "x1", "x10", "x2", "Ω", "o-1",
-                       "s.1", "A b"])
+                       "s.1", "A b", " a", "a ", " b ", "#c"])
 
 
 @st.composite
